@@ -8,6 +8,7 @@ import (
 	"errors"
 	"fmt"
 	"io"
+	"strings"
 	"sync"
 	"sync/atomic"
 	"time"
@@ -97,6 +98,14 @@ func (s *MemStore) call(op, file string, n int) bool {
 	s.seq++
 	s.log = append(s.log, StoreCall{Seq: s.seq, Op: op, File: file, N: n, Err: fail})
 	return fail
+}
+
+// Mark appends a harness-level event to the call log.
+func (s *MemStore) Mark(op, detail string) {
+	s.mu.Lock()
+	s.seq++
+	s.log = append(s.log, StoreCall{Seq: s.seq, Op: op, File: detail})
+	s.mu.Unlock()
 }
 
 func (s *MemStore) Log() []StoreCall {
@@ -304,9 +313,9 @@ func (s *MemStore) Misuses() []string {
 	return out
 }
 
-func (s *MemStore) OpenHandles() int64 { return s.openHandles.Load() }
+func (s *MemStore) OpenHandles() int64        { return s.openHandles.Load() }
 func (s *MemStore) MaxConcurrentReads() int64 { return s.maxReads.Load() }
-func (s *MemStore) ResetReadGauge()     { s.maxReads.Store(0) }
+func (s *MemStore) ResetReadGauge()           { s.maxReads.Store(0) }
 
 func (r *memReader) Seek(off int64, whence int) (int64, error) {
 	r.enter("seek")
@@ -351,7 +360,14 @@ type FaultMeta struct {
 }
 
 func (m *FaultMeta) Update(ctx context.Context, w []bs.WriteOperation, d []bs.DeleteOperation) error {
-	if m.s.call("update", "", len(w)+len(d)) {
+	var ws, ds []string
+	for _, x := range w {
+		ws = append(ws, string(x.FilePointerBytes))
+	}
+	for _, x := range d {
+		ds = append(ds, string(x.FilePointerBytes))
+	}
+	if m.s.call("update", "w="+strings.Join(ws, ",")+";d="+strings.Join(ds, ","), len(w)+len(d)) {
 		return errInjected
 	}
 	return m.MetaStore.Update(ctx, w, d)
